@@ -129,6 +129,8 @@ def b_bool(I, v=False):
 def b_isinstance(I, v, t):
     ts = t if isinstance(t, tuple) else (t,)
     for x in ts:
+        if isinstance(x, Builtin) and x.name in ('list', 'tuple', 'int', 'slice', 'bool', 'type'):
+            x = PType(x.name)
         if isinstance(x, PType):
             nm = x.name
             if nm == 'int' and is_int(v):
